@@ -118,9 +118,9 @@ def parts(tier):
         ]
     from vflib import progsym
     return [
-        CH("k1k2", "vflib.props.c04:scen_tv", {"pool": "KEY_POOL_FULL", "styled": "k1k2", "templates": progsym.TEMPLATES_FULL}, shards=16, timeout=2400, path_timeout=30),
+        CH("k1k2", "vflib.props.c04:scen_tv", {"pool": "KEY_POOL_FULL", "styled": "k1k2", "templates": progsym.TEMPLATES_FULL}, shards=16, timeout=900, path_timeout=30),
         CH("options", "vflib.props.c04:scen_tv", {"pool": "KEY_POOL_FULL", "styled": "k3", "options": True, "templates": progsym.TEMPLATES_FULL},
-           shards=16, timeout=1500, path_timeout=30),
+           shards=16, timeout=700, path_timeout=30),
     ]
 
 
